@@ -73,6 +73,13 @@ package goose
 //@   may_reject
 //@   noframe
 //@   ensures [returns only for pointer types; anything else is rejected] typeis(t, *types.Pointer)
+// go/constant.StringVal panics for a constant that is not a string; the type checker gives a string
+// literal a string constant (trusted: go/types).
+//@ ghost func ckind(v constant.Value) constant.Kind = pure(constant.Kind, "(go/constant.Value).Kind", v)
+//@ axiom [ast] string_literal_has_string_value: forall info *types.Info, e *ast.BasicLit :: e.Kind == token.STRING ==> ckind(info.Types[ast.Expr(e)].Value) == constant.String
+//@ assume func go/constant.StringVal (x)
+//@   requires [the constant is a string (StringVal panics otherwise)] ckind(x) == constant.String
+//@   ensures result == pure(string, "go/constant.StringVal", x)
 //@ func stringLitValue
 //@   requires [literal is a string] lit.Kind == token.STRING
 //@   may_reject
